@@ -477,3 +477,96 @@ func runStabilityTest(p *Program, prop *Property, funcs map[string]bool) map[str
 		"stability_skipped":  skipped,
 	}
 }
+
+// ---------------------------------------------------------------------------
+// Condition sensitivity sweep (thorough): every two-way condition of the
+// functions the property's rules looked at is forced false / true, one at a
+// time, in memory; the sweep records which of these variants are noticed by
+// at least one obligation of the property. Conditions no obligation reacts to
+// are listed in the evidence: they are the rule set's blind spots on today's
+// code (many are legitimately irrelevant to the property - logging, metrics,
+// option handling). Not part of the verdict.
+
+func runSensitivitySweep(p *Program, prop *Property, funcs map[string]bool) map[string]any {
+	type cand struct {
+		w    Witness
+		desc string
+	}
+	var cands []cand
+	var names []string
+	for n := range funcs {
+		names = append(names, n)
+	}
+	sort.Strings(names)
+	for _, name := range names {
+		f := p.Fn(name)
+		if f == nil || f.Body == nil {
+			continue
+		}
+		for _, fx := range append([]*Func{f}, allLits(f)...) {
+			g := fx.Graph()
+			seen := map[ast.Expr]bool{}
+			for _, b := range g.Blocks {
+				c := Cond(b)
+				if c == nil || seen[c] {
+					continue
+				}
+				seen[c] = true
+				src := p.srcText(c)
+				if src == "" || len(src) > 400 {
+					continue
+				}
+				cands = append(cands, cand{fx.Wit(c, "("+src+") && false", "force-false"), fx.Name + " " + fx.Pos(c) + ": " + firstLines(src, 1)})
+				cands = append(cands, cand{fx.Wit(c, "("+src+") || true", "force-true"), fx.Name + " " + fx.Pos(c) + ": " + firstLines(src, 1)})
+			}
+		}
+	}
+	var mu sync.Mutex
+	noticed, applied := 0, 0
+	var blind, seenList []string
+	sem := make(chan struct{}, 12)
+	var wg sync.WaitGroup
+	for _, cd := range cands {
+		cd := cd
+		wg.Add(1)
+		sem <- struct{}{}
+		go func() {
+			defer wg.Done()
+			defer func() { <-sem }()
+			np, err := p.mutate(cd.w)
+			if err != nil {
+				return
+			}
+			hit := false
+			for _, ob := range prop.Obligations {
+				for _, r := range runObligation(np, prop, ob, "quick", map[string]bool{}) {
+					if r.Verdict != Discharged {
+						hit = true
+					}
+				}
+				if hit {
+					break
+				}
+			}
+			mu.Lock()
+			applied++
+			if hit {
+				noticed++
+				seenList = append(seenList, cd.w.Kind+" "+cd.desc)
+			} else {
+				blind = append(blind, cd.w.Kind+" "+cd.desc)
+			}
+			mu.Unlock()
+		}()
+	}
+	wg.Wait()
+	sort.Strings(blind)
+	sort.Strings(seenList)
+	return map[string]any{
+		"sensitivity_rule":      "every two-way condition of the analysed functions forced false and forced true, one at a time, in memory; a variant is noticed when at least one obligation of the property stops being discharged",
+		"sensitivity_variants":  applied,
+		"sensitivity_noticed":   noticed,
+		"sensitivity_unnoticed": blind,
+		"sensitivity_noticed_list": seenList,
+	}
+}
